@@ -24,6 +24,7 @@ ASSUMPTIONS = ["delta = 1e-3*L with L recomputed from the final scene",
                "scenes inside the band (neither clause certified) are counted undecided, never asserted"]
 N = {"quick": 20, "thorough": 800}
 CLEAR_GAPS = [1.05e-3, 2e-3, 1e-2, 0.1, 1.0, 3.0]
+PRIMS = ("sphere", "capsule", "box", "ellipsoid", "cylinder")
 
 
 def cells(tier):
@@ -32,6 +33,8 @@ def cells(tier):
         for b in KINDS:
             for fam in ("gap", "deep", "free"):
                 n = N[tier] if fam != "free" else max(4, N[tier] // 3)
+                if a in PRIMS and b in PRIMS and fam != "deep":
+                    n *= 5     # the primitives-only test has its own solver copy
                 out.append({"name": "%s-%s-%s" % (a, b, fam), "A": a, "B": b,
                             "family": fam, "n": n})
     return out
